@@ -141,8 +141,12 @@ impl ParseAttribute for InputField {
 
             // The `r#` of a raw identifier is spelling, not part of the name: the generated
             // matcher drops it from what the user wrote, so drop it from the declared name too.
-            if let Some(bare) = self.attr_name.as_deref().and_then(|n| n.strip_prefix("r#")) {
-                self.attr_name = Some(bare.to_string());
+            if let Some(name) = self.attr_name.as_deref() {
+                let bare: Vec<_> = name
+                    .split("::")
+                    .map(|segment| segment.strip_prefix("r#").unwrap_or(segment))
+                    .collect();
+                self.attr_name = Some(bare.join("::"));
             }
 
             if self.flatten.is_present() {
